@@ -700,8 +700,11 @@ hwloc_distances_add_commit(hwloc_topology_t topology,
     goto out;
   }
 
-  /* in case we added some groups, see if we need to reconnect */
-  hwloc__reconnect(topology, 0);
+  /* in case we added some groups, reconnect and recompute what depends on the tree shape */
+  if (topology->modified) {
+    hwloc__reconnect(topology, 0);
+    hwloc__post_insert_fixups(topology);
+  }
 
   return 0;
 
